@@ -371,6 +371,22 @@ def rule_semantics(P) -> RuleResult:
                 res.ok({'action': name, 'result': want[name].__name__})
         else:
             res.ok({'action': name, 'rule': name})
+    # a rule that declares its node class (`and::And::BoolOp`) gets its tree from the default action - the node of that class over
+    # the named elements, nothing moved or merged: an action of its own for such a rule (a method, or a class attribute bound to a
+    # helper; TatSu also looks the name up with a trailing underscore) builds a different tree than the grammar describes, and
+    # text written with the parentheses a tree needs no longer parses back to that tree
+    import re as _re
+    typed = set(_re.findall(r'(?m)^([a-z_]+)::[A-Za-z]', text))
+    for name in list(sem.methods) + list(getattr(sem, 'attrs', {}) or {}):
+        base = name[:-1] if name.endswith('_') and name[:-1] in typed else name
+        if base in typed and not name.startswith('_'):
+            res.fail(f'{sem.fq}.{name}', 'semantics:typed-rule', f'rule `{base}` declares its node class in the grammar; the semantic action '
+                     f'`{name}` replaces the default construction of that node, so the parsed tree is no longer the one the grammar (and the '
+                     f'printed form of a tree) describes', loc(sem))
+    if len(typed) < 30:
+        raise AnalysisError(f'only {len(typed)} rules with a declared node class found in bql.ebnf')
+    if not any(f.detail == 'semantics:typed-rule' for f in res.findings):
+        res.ok({'typed_rules': len(typed), 'actions_on_typed_rules': 0})
     for name in want:
         if name in rules and name not in sem.methods:
             res.fail(f'{sem.fq}.{name}', 'semantics:missing', f'terminal rule `{name}` has no semantic action: the literal stays a string')
@@ -1163,6 +1179,8 @@ CLAUSE_LANGUAGE = {
     'balances': _S('BALANCES', _O('AT', '<identifier>'), _O('FROM', '<from>'), _O('WHERE', '<expression>')),
     'journal': _S('JOURNAL', _O('<string>'), _O('AT', '<identifier>'), _O('FROM', '<from>')),
     'print': _S('PRINT', _O('FROM', '<from>')),
+    # a named placeholder carries an identifier: lower-cased like every name, not a reserved word, blanks and comments allowed inside
+    'placeholder': _A('%S', _S('%(', '<identifier>', ')S')),       # (tokens are compared upper-cased: @@ignorecase)
 }
 
 
